@@ -684,7 +684,10 @@ def s_index(st, s, i, g):
         t = str_of(s)
         n = z3.Length(t)
         st.pend(zand(g, z3.Or(it < -n, it >= n)), "IndexError", "string index out of range")
-        idx = z3.If(it < 0, it + n, it)
+        if z3.is_app_of(it, z3.Z3_OP_SEQ_LENGTH) or (z3.is_int_value(it) and it.as_long() >= 0):
+            idx = it
+        else:
+            idx = z3.If(it < 0, it + n, it)
         res = z3.SubString(t, idx, 1)
         if isinstance(i, C) and i.v == 0:
             for c in SEPS:
@@ -716,6 +719,8 @@ def s_slice(st, s, lo, hi, g):
         it = int_of(v)
         if it is None:
             raise OutOfSubset("slice bound of kind %s" % kind(v))
+        if z3.is_app_of(it, z3.Z3_OP_SEQ_LENGTH) or (z3.is_int_value(it) and it.as_long() >= 0):
+            return z3.If(it > n, n, it)          # syntactically non-negative bound: no wrap-around case
         adj = z3.If(it < 0, it + n, it)
         return z3.If(adj < 0, z3.IntVal(0), z3.If(adj > n, n, adj))
     a = clamp(lo, z3.IntVal(0))
